@@ -42,8 +42,18 @@ def ob_swap(ctx):
     j = ctx.mk.pick("j", m)
     newbody = ctx.mk.seq("nb", P["newlen"], "ACGT")
 
-    def module(i, body, ident):
-        return Mod(st.record.CircularRecord(st.Seq("ACGT"), id=ident), st.Seq(starts[i]), st.Seq(ends[i]),
+    def module(i, body, ident, annotated=False):
+        rec = st.record.CircularRecord(st.Seq("ACGT"), id=ident)
+        if annotated:
+            # the sibling comes from a richly annotated GenBank file: a long reference list, one feature citing one entry
+            from .annot import make_ref
+
+            R = P["annotated"]
+            rec.annotations["references"] = [make_ref(st, "ref-%02d" % q) for q in range(1, R + 1)]
+            cit = 1 + ctx.mk.pick("cit", R)
+            rec.features.append(st.SeqFeature(st.SimpleLocation(0, 2, strand=1), type="CDS",
+                                              qualifiers={"label": ["L"], "citation": ["[%d]" % cit]}))
+        return Mod(rec, st.Seq(starts[i]), st.Seq(ends[i]),
                    (lambda: st.SeqRecord(st.Seq(starts[i] + body), id=ident)))
 
     mods = [module(i, bodies[i], "m%d" % i) for i in range(m)]
@@ -55,7 +65,7 @@ def ob_swap(ctx):
     if o1["kind"] != "product":
         return True
     mods2 = list(mods)
-    mods2[j] = module(j, newbody, "repl")
+    mods2[j] = module(j, newbody, "repl", annotated=bool(P.get("annotated")))
     o2 = run_assemble(st, vec, mods2)
     ctx.require(o2["kind"] == "product", "replacement-fails:" + o2["kind"])
     ref = reference_walk(codes(up, k), codes(down, k), [codes(s, k) for s in starts], [codes(e, k) for e in ends], k)
@@ -160,6 +170,9 @@ def obligations(tier, seed):
         for newlen in (0, 4):
             obs.append(Ob("swap among m=%d stubs, new target %d nt" % (m, newlen), ob_swap, dict(m=m, newlen=newlen),
                           samples=10, cost=10 ** m, expect_witness=("product",)))
+    for m in (1, 2):
+        obs.append(Ob("swap among m=%d stubs, the replacement carries 12 references and a citing feature" % m, ob_swap,
+                      dict(m=m, newlen=3, annotated=12), samples=10, cost=12 * 10 ** m, expect_witness=("product",), group="annotated"))
     names = ["BsaI", "BbsI", "SapI"] if tier == "quick" else [v[0] for k, v in sorted(geometries().items())]
     for e in names:
         for j in (0, 1):
